@@ -453,3 +453,43 @@ def assert_optimistic(cfg):
     res.count('copying node constructors (OLC)', n)
     res.floor('copying node constructors (OLC)', 8)
     return res
+
+
+def assert_limits(cfg):
+    """ASSERT-4: an assertion that bounds a quantity by numeric_limits<T>::max() uses a T as wide as the quantity"""
+    from ..forwarders import is_assert_elem
+    res = RuleResult('ASSERT-4', 'assertions of the form `x <= numeric_limits<T>::max() - y` (overflow preconditions) take the limit of a type at least as wide as the quantities they bound: with a narrower T (the encoder\'s own 16-bit `size_type` instead of `std::size_t`) the assertion fires for legal values - an assertion-enabled build aborts on a key longer than 64 KiB that the release build encodes correctly')
+    if '-debug-' not in cfg.name:
+        res.note('assertion-enabled configurations only')
+        return res
+    n = 0
+    for f in cfg.functions:
+        if not f.blocks or not (f.file or '').endswith(('.hpp', '.cpp')):
+            continue
+        for b, i, e in f.elements():
+            if not (e.get('k') == 'binop' and e.get('op') in ('<', '<=', '>', '>=') and is_assert_elem(e)):
+                continue
+            sides = []
+            for o in (e['l'], e['r']):
+                lims, vars_ = [], []
+
+                def v(x):
+                    if x.get('k') == 'call' and (x.get('callee') or '').startswith('std::numeric_limits<') and x.get('name') == 'max' and x.get('w'):
+                        lims.append(x)
+                    elif x.get('k') in ('ref', 'member') and x.get('w') and 'cv' not in x:
+                        vars_.append(x)
+                f.walk(o, v)
+                sides.append((lims, vars_))
+            for (lims, vars_same), (_, vars_other) in ((sides[0], sides[1]), (sides[1], sides[0])):
+                if not lims:
+                    continue
+                n += 1
+                wl = min(x['w'] for x in lims)
+                wv = max([x['w'] for x in vars_same + vars_other] or [0])
+                ok = wl >= wv
+                res.ob(ok, {'rule': 'ASSERT-4', 'function': sh(f.sig)[:100], 'site': fileline(e.get('loc')), 'limit_width': wl, 'widest_quantity': wv, 'verdict': 'discharged' if ok else 'VIOLATION'})
+                if not ok:
+                    res.find(f, e.get('loc'), '%s: the assertion bounds a %d-bit quantity by the maximum of a %d-bit type (%s): it fires as soon as the quantity exceeds 2^%d - 1, which is legal - the assertion-enabled build aborts where the release build works' % (f.short, wv, wl, sh(lims[0].get('callee') or '')[:60], wl), key='ASSERT-4:%s' % f.short, config=cfg.name)
+    res.count('assertions bounded by a numeric limit', n)
+    res.floor('assertions bounded by a numeric limit', 1)
+    return res
